@@ -23,7 +23,7 @@ package jen
 
 //@ func (*File).isDotImport [C06,C08,C19]
 //@   requires f != nil
-//@   ensures [C06] hint: result == isDotHint(mapof(f.hints), path)
+//@   ensures [C06,C08,C19] spec: result == dotNow(Fof(f), mapof(f.imports), path)
 
 //@ func (*File).prefixed [C03,C05,C06,C19]
 //@   requires f != nil
